@@ -144,9 +144,13 @@ def twin_case(case):
         case["filled"] = {"big": "9" * (w - 2) + ".", "zero": "0.", "neg": "-" + "9" * (w - 3) + "."}[case["filled_class"]]
     else:
         case["filled"] = {"big": "9" * (w - 1), "zero": "0", "neg": "-" + "9" * max(1, w - 2)}[case["filled_class"]]
+    # the other fields of the block hold ordinary, mutually consistent values (a UTM zone that exists, ...)
+    usual = {("LED", "map_projection", 0, "utm_projection.zone_number"): "54", ("LED", "map_projection", 0, "utm_projection.map_origin.false_easting"): "500000.000",
+             ("LED", "map_projection", 0, "utm_projection.map_origin.false_northing"): "10000000.000"}
+    usual.pop(f, None)
     for blank in (False, True):
         b = product.build_product(level=case["level"], images=(("HH", None, 2, 2),), seed=case["seed"], ctx=case.get("ctx"),
-                                  overrides=None if blank else {f: case["filled"]}, blank=[f] if blank else None)
+                                  overrides=dict(usual) if blank else {**usual, f: case["filled"]}, blank=[f] if blank else None)
         url = imgrun.put_on_fs(b, "local", f"c20tw_{case['seed']}_{int(blank)}")
         try:
             fps.append(project.fingerprint(ceos_alos2.open_alos2(url, backend_options=dict(use_cache=False))))
@@ -159,7 +163,9 @@ def twin_case(case):
     names = {f[3].split(".")[-1]} | ({m["n"], m["n"].replace(".", "_")} if m else set())
     d = project.diff(fps[0], fps[1])
     out["n"] = 1
-    foreign = [x for x in d if not any(nm in x for nm in names)]
+    # (a leaf that exists only in the FILLED tree is derived from a real value -- not this property's business; one that exists in the blank
+    # tree and differs, or only there, was derived from a blank)
+    foreign = [x for x in d if not any(nm in x for nm in names) and "only in first" not in x]
     if foreign:
         out["bad"].append(("derived-from-blank", f"{f[1]}.{f[3]} blank instead of {case['filled']!r}: other leaves changed too: {foreign[:3]}"))
     return out
@@ -320,7 +326,7 @@ def body(chk):
     for di, desig in enumerate(("UTM-PROJECTION", "UPS-PROJECTION", "LCC-PROJECTION", "MER-PROJECTION")):
         mp = [f for f in nullable_fields("1.5") if f[1] == "map_projection"]
         for j, f in enumerate(mp):
-            if chk.tier == "quick" and (j + di) % 4:
+            if chk.tier == "quick" and (j + di) % 4 and not any(w_ in f[3] for w_ in ("false_", "origin", "zone", "parallel", "scale")):
                 continue
             for fc in ("big", "zero", "neg"):
                 tw.append(dict(level="1.5", field=list(f), filled_class=fc, ctx=dict(designator=desig), seed=chk.seed + 1200 + j))
